@@ -10,9 +10,11 @@ import (
 	"math"
 	"os"
 	"path/filepath"
+	"reflect"
 	"sort"
 	"strings"
 	"testing"
+	"time"
 
 	"github.com/scigolib/hdf5/verif/indep"
 	"github.com/scigolib/hdf5/verif/obs"
@@ -54,6 +56,115 @@ func treeProblems(rel string) (problems []string, compared int, skip string) {
 	if err != nil || len(data) == 0 {
 		return nil, 0, "unreadable-or-emptied"
 	}
+	problems, compared, skip = treeProblemsOf(full, data)
+	if skip != "" {
+		return
+	}
+	// the same file with the ids of two objects of a global heap collection exchanged: every reference now names the
+	// other object's bytes, for the independent decoder and for the library alike
+	if v := swapHeapIDs(data); v != nil {
+		vp := filepath.Join(vt.GetEnv().Scratch, fmt.Sprintf("treediff-variant-%d.h5", os.Getpid()))
+		if os.WriteFile(vp, v, 0o644) == nil {
+			ps, n, sk := treeProblemsOf(vp, v)
+			os.Remove(vp)
+			if sk == "" {
+				compared += n
+				for _, p := range ps {
+					problems = append(problems, "[heap ids of two objects exchanged] "+p)
+				}
+			}
+		}
+	}
+	return
+}
+
+// swapHeapIDs returns a copy of data in which the first two used objects of the first global heap collection with at least
+// two objects carry each other's ids, or nil.
+func swapHeapIDs(data []byte) []byte {
+	ref, err := indep.Decode(data, indep.TolerateAll())
+	if err != nil || ref == nil {
+		return nil
+	}
+	var addrs []uint64
+	for a := range ref.GlobalHeaps {
+		addrs = append(addrs, a)
+	}
+	sort.Slice(addrs, func(i, j int) bool { return addrs[i] < addrs[j] })
+	L := ref.LengthSize
+	for _, a := range addrs {
+		g := ref.GlobalHeaps[a]
+		if len(g.Objects) < 2 || a+g.Size > uint64(len(data)) || L < 1 || L > 8 {
+			continue
+		}
+		var idPos []int
+		pos := int(a) + 8 + L // signature, version, reserved, collection size
+		end := int(a + g.Size)
+		for pos+8+L <= end && len(idPos) < 2 {
+			id := int(data[pos]) | int(data[pos+1])<<8
+			var sz uint64
+			for k := L - 1; k >= 0; k-- {
+				sz = sz<<8 | uint64(data[pos+8+k])
+			}
+			if id == 0 {
+				break
+			}
+			idPos = append(idPos, pos)
+			pos += 8 + L + int((sz+7)/8*8)
+		}
+		if len(idPos) == 2 {
+			v := append([]byte{}, data...)
+			v[idPos[0]], v[idPos[0]+1], v[idPos[1]], v[idPos[1]+1] = data[idPos[1]], data[idPos[1]+1], data[idPos[0]], data[idPos[0]+1]
+			return v
+		}
+	}
+	return nil
+}
+
+// vlenStrings resolves raw variable-length descriptors through the independent decoder's global heap.
+func vlenStrings(ref *indep.File, raw []byte) ([]string, bool) {
+	step := 8 + ref.OffsetSize
+	if len(raw) == 0 || len(raw)%step != 0 {
+		return nil, false
+	}
+	var out []string
+	for i := 0; i < len(raw); i += step {
+		b, err := ref.ResolveVLen(raw[i : i+step])
+		if err != nil {
+			return nil, false
+		}
+		if j := strings.IndexByte(string(b), 0); j >= 0 {
+			b = b[:j]
+		}
+		out = append(out, string(b))
+	}
+	return out, true
+}
+
+// vlenAttrProblems compares the variable-length string attributes the library reports for an object with the strings the
+// independent decoder resolves for the same attribute.
+func vlenAttrProblems(ref *indep.File, r *indep.Object, path string, attrs []obs.Attr) (ps []string, n int) {
+	for _, a := range attrs {
+		if a.Class != 9 || a.ValueErr != "" {
+			continue
+		}
+		for _, ra := range r.Attrs {
+			if ra.Name != a.Name || ra.Type == nil || ra.Type.Class != 9 || !ra.Type.VLenIsString {
+				continue
+			}
+			want, ok := vlenStrings(ref, ra.Data)
+			if !ok {
+				continue
+			}
+			n++
+			if a.Value != obs.Render(want) && !(len(want) == 1 && a.Value == obs.Render(want[0])) {
+				ps = append(ps, fmt.Sprintf("%s: variable-length string attribute %q reads %s, the heap objects it names hold %s", path, a.Name, a.Value, obs.Render(want)))
+			}
+		}
+	}
+	return
+}
+
+func treeProblemsOf(full string, data []byte) (problems []string, compared int, skip string) {
 	ref, err := indep.Decode(data, indep.TolerateAll())
 	if err != nil || ref == nil {
 		return nil, 0, "independent-decoder-refuses"
@@ -82,6 +193,10 @@ func treeProblems(rel string) (problems []string, compared int, skip string) {
 		if r.Kind != "group" {
 			problems = append(problems, fmt.Sprintf("%s: listed as a group, the file holds a %s there", p, r.Kind))
 			continue
+		}
+		if o.Groups[p].AttrsErr == "" {
+			ps, n := vlenAttrProblems(ref, r, p, o.Groups[p].Attrs)
+			problems, compared = append(problems, ps...), compared+n
 		}
 		for _, c := range o.Groups[p].Children {
 			if c.Kind == "other" {
@@ -121,8 +236,20 @@ func treeProblems(rel string) (problems []string, compared int, skip string) {
 			continue
 		}
 		d := o.Datasets[p]
+		if d.AttrsErr == "" {
+			ps, n := vlenAttrProblems(ref, r, p, d.Attrs)
+			problems, compared = append(problems, ps...), compared+n
+		}
 		if d.InfoErr != "" || r.Type == nil {
 			continue
+		}
+		if r.Type.Class == 9 && r.Type.VLenIsString && d.StringsErr == "" && r.RawErr == "" && r.Raw != nil {
+			if want, ok := vlenStrings(ref, r.Raw); ok {
+				compared++
+				if !reflect.DeepEqual(want, d.Strings) && !(len(want) == 0 && len(d.Strings) == 0) {
+					problems = append(problems, fmt.Sprintf("%s: ReadStrings() returns %d strings that differ from the heap objects the elements name", p, len(d.Strings)))
+				}
+			}
 		}
 		if !r.Type.Shared && (d.Class != r.Type.Class || d.Size != r.Type.Size) {
 			problems = append(problems, fmt.Sprintf("%s: element type class %d size %d, the file holds class %d size %d", p, d.Class, d.Size, r.Type.Class, r.Type.Size))
@@ -178,8 +305,13 @@ func treeBody(t *testing.T) {
 		if i%e.NShards != e.Shard {
 			continue
 		}
-		ps, compared, skip := treeProblems(f)
 		cs := TreeCase{File: f}
+		vt.Current(prop, subTree, cs)
+		t0 := time.Now()
+		ps, compared, skip := treeProblems(f)
+		if el := time.Since(t0); el > 2*time.Second {
+			rec.Note("treediff: %s took %.1fs", f, el.Seconds())
+		}
 		if skip != "" {
 			rec.Label(subTree, "skip:"+skip, 1)
 			continue
